@@ -21,8 +21,9 @@ def main():
             if f.endswith('.json'):
                 CLAIMS[f[:-5]] = json.load(open(os.path.join(d, f)))
     checks = []
+    integrated = set(open(os.path.join(V, 'harness', 'integrated.txt')).read().split())
     for pid in ALL:
-        if pid not in CLAIMS or not os.path.exists(os.path.join(V, 'harness', pid.lower() + '.py')):
+        if pid not in integrated or pid not in CLAIMS or not os.path.exists(os.path.join(V, 'harness', pid.lower() + '.py')):
             continue
         c = CLAIMS[pid]
         checks.append({
